@@ -230,3 +230,72 @@ func waitBlockedOrEvent(a *actor, d time.Duration, states ...string) bool {
 	}
 	return false
 }
+
+// looksBlocked reports whether the goroutine of a is parked in a blocking
+// operation right now (as opposed to running, runnable or not yet scheduled):
+// only then is a missing arrival a stall and not mere slowness of the machine.
+func looksBlocked(a *actor) bool {
+	id := a.goid.Load()
+	if id == 0 {
+		return true // unknown goroutine: no second opinion available
+	}
+	needle := []byte("goroutine " + strconv.FormatInt(id, 10) + " [")
+	buf := make([]byte, 1<<20)
+	n := runtime.Stack(buf, true)
+	b := buf[:n]
+	i := bytes.Index(b, needle)
+	if i < 0 {
+		return true // it has exited: nothing more will arrive
+	}
+	rest := b[i+len(needle):]
+	j := bytes.IndexByte(rest, ']')
+	if j < 0 {
+		return true
+	}
+	st := string(rest[:j])
+	for _, w := range []string{"running", "runnable", "sleep", "syscall"} {
+		if strings.HasPrefix(st, w) {
+			return false
+		}
+	}
+	return true
+}
+
+// awaitPatient is await, except that a timeout is only believed when the
+// goroutine is parked in a blocking operation; while it is merely slow (the
+// machine is loaded or was suspended) the wait is extended, up to 6 periods.
+func awaitPatient(a *actor, d time.Duration) string {
+	for k := 0; k < 6; k++ {
+		if e := await(a, d); e != "" {
+			return e
+		}
+		if quiescent(a) {
+			// one more short look: an arrival may be in flight
+			return await(a, 50*time.Millisecond)
+		}
+	}
+	return ""
+}
+
+// quiescent: every goroutine of the current run that the gate knows (callers,
+// the serve goroutine, goroutines the library started for them) is parked in a
+// blocking operation. As long as one of them is running or runnable the system
+// may still produce the arrival that is awaited.
+func quiescent(a *actor) bool {
+	g := curGate.Load()
+	if g == nil {
+		return looksBlocked(a)
+	}
+	g.mu.Lock()
+	var as []*actor
+	for _, x := range g.byGo {
+		as = append(as, x)
+	}
+	g.mu.Unlock()
+	for _, x := range as {
+		if !looksBlocked(x) {
+			return false
+		}
+	}
+	return looksBlocked(a)
+}
